@@ -54,7 +54,10 @@ try:
     pkg = "./" + os.path.dirname(dpath)
     dm = re.findall(r"^func (Test\w+)\(", open(demo).read(), re.M)
     runpat = "^(" + "|".join(dm) + ")$"
-    r1 = sh("go test -vet=off -count=1 -run '%s' %s" % (runpat, pkg), timeout=900)
+    raceflag = "-race " if "//go:build race" in open(demo).read() else ""
+    if raceflag:
+        env["CGO_ENABLED"] = "1"
+    r1 = sh("go test %s-vet=off -count=1 -run '%s' %s" % (raceflag, runpat, pkg), timeout=1800)
     meta["demo_with_patch"] = "FAIL" if r1.returncode != 0 else "PASS"
     meta["demo_with_patch_tail"] = (r1.stdout + r1.stderr)[-1500:]
     if suite:
@@ -101,7 +104,7 @@ try:
     # without the patch
     sh("git checkout -- . && git clean -fdq")
     shutil.copy(demo, os.path.join(wt, dpath))
-    r2 = sh("go test -vet=off -count=1 -run '%s' %s" % (runpat, pkg), timeout=900)
+    r2 = sh("go test %s-vet=off -count=1 -run '%s' %s" % (raceflag, runpat, pkg), timeout=1800)
     meta["demo_without_patch"] = "FAIL" if r2.returncode != 0 else "PASS"
     ok = meta["demo_with_patch"] == "FAIL" and meta["demo_without_patch"] == "PASS"
     meta["status"] = "confirmed" if ok else "NOT CONFIRMED"
